@@ -56,8 +56,8 @@ theorem early_exit_is_backoff (cfg : Cfg) (p : Proc) (now es : Int) (busy : Bool
   have hl : (rollback cfg now p).laststart = p.laststart := by
     rw [rollback_laststart_starting cfg now p hs]; omega
   cases busy <;>
-    simp [finish, finishCore, tooQuickly, changeState, assertIn, emit, setP, guard, finish_g0, finish_g1, finish_g3, finish_a2,
-      finish_a4, finish_a5, finish_a20, finish_c2, finish_c3_0, change_state_g0, change_state_g1, change_state_a0, change_state_a2,
+    simp [finish, finishCore, tooQuickly, changeState, assertIn, emit, setP, guard, finish_g0, finish_g1, finish_g2, finish_a7, finish_a8, finish_a9, finish_g4, finish_a2,
+      finish_a4, finish_a5, finish_a24, finish_c2, finish_c3_0, change_state_g0, change_state_g1, change_state_a0, change_state_a2,
       change_state_a4, change_state_a5, announces_all, g1, g3, g4, hl, h1, h2]
 
 /-- **A start attempt that cannot be spawned ⇒ BACKOFF** (command lookup, pipe creation, fork) -/
@@ -212,13 +212,13 @@ theorem running_exit_is_exited (cfg : Cfg) (p : Proc) (now es : Int) (busy : Boo
   by_cases hlt : (rollback cfg now p).laststart < now
   · have hq' := hq hlt
     cases busy <;> by_cases hx : es ∈ cfg.exitcodes <;>
-      simp [finish, finishCore, tooQuickly, changeState, assertIn, emit, setP, guard, enters, finish_g0, finish_g1, finish_g3,
-        finish_g4, finish_g5, finish_a2, finish_a4, finish_a5, finish_a6, finish_a14, finish_a15, finish_a16, finish_a20,
+      simp [finish, finishCore, tooQuickly, changeState, assertIn, emit, setP, guard, enters, finish_g0, finish_g1, finish_g2, finish_a7, finish_a8, finish_a9, finish_g4,
+        finish_g5, finish_g6, finish_a2, finish_a4, finish_a5, finish_a6, finish_a18, finish_a19, finish_a20, finish_a24,
         finish_c4_0, finish_c5, finish_c6_0, finish_c6_1, finish_c7_0, finish_c7_1, change_state_g0, change_state_g1,
         change_state_a0, change_state_a2, announces_all, g1, g4, hlt, hq', hx]
   · cases busy <;> by_cases hx : es ∈ cfg.exitcodes <;>
-      simp [finish, finishCore, tooQuickly, changeState, assertIn, emit, setP, guard, enters, finish_g0, finish_g1, finish_g3,
-        finish_g4, finish_g5, finish_a2, finish_a4, finish_a5, finish_a6, finish_a14, finish_a15, finish_a16, finish_a20,
+      simp [finish, finishCore, tooQuickly, changeState, assertIn, emit, setP, guard, enters, finish_g0, finish_g1, finish_g2, finish_a7, finish_a8, finish_a9, finish_g4,
+        finish_g5, finish_g6, finish_a2, finish_a4, finish_a5, finish_a6, finish_a18, finish_a19, finish_a20, finish_a24,
         finish_c4_0, finish_c5, finish_c6_0, finish_c6_1, finish_c7_0, finish_c7_1, change_state_g0, change_state_g1,
         change_state_a0, change_state_a2, announces_all, g1, g4, hlt, hx]
 
